@@ -80,6 +80,8 @@ def fixed_corpus(u):
     add('ids', Struct('IdsReq', [Field(i, ('i16',), 'required') for i in [63, 64, 127, 128, 1023, 1024, 65535]]))
     add('ids', Struct('IdMax', [Field(65535, ('string',), 'required')]))
     add('ids', Struct('IdZero', [Field(0, ('i64',), 'required')]))
+    # a zero-size field shares its offset with the required field after it
+    add('ids', Struct('ZeroNbr', [Field(1, ('struct', 'Empty')), Field(2, ('i32',), 'required'), Field(3, ('struct', 'Empty')), Field(4, ('string',), 'required')]))
 
     # defaults
     add('defaults', Struct('Def', [
